@@ -47,7 +47,8 @@ fn record(s: &str) -> Value {
 
 const INSERTS: &[&str] = &[
     "_", "+", "0", "1", "9", "k", "K", "N", "X", "p", "s", "psk", "psk1", "fallback", " ", "é", "€", "\u{1F600}", "\t", "-", ".", "/",
-    "a", "Z", "2", "5", "S", "B",
+    "a", "Z", "2", "5", "S", "B", "4294967296", "18446744073709551616", "00000000001", "255", "256", "+psk0", "+psk00", "+psk01", "+psk1",
+    "+psk001", "+fallback", "+", "psk+",
 ];
 
 pub fn main(o: &Opts) -> Result<i32, String> {
